@@ -56,7 +56,12 @@ def evExt : Ext := fun st recv fn args =>
   | .ref _, "change_fundamental_price", [_] => some (.none, st)
   | _, _, _ => none
 
-def evEnv : Env := { prog := PamsGen.Code.prog, globals := globals, ext := evExt }
+/-- the translated program without the market's own `change_fundamental_price` (a call of it is an
+extern call here: the events are stated modulo the market's methods) -/
+def evProg : List (String × FunDef) :=
+  PamsGen.Code.prog.filter (fun e => !(e.1 == "Market.change_fundamental_price"))
+
+def evEnv : Env := { prog := evProg, globals := globals, ext := evExt }
 
 /-! ### `PriceLimitRule.get_limited_price` -/
 
